@@ -249,6 +249,11 @@ def view(mol, name):
     raise KeyError(name)
 
 
+def _ring_gap(mol):
+    adj = {n: {m for m, b in ms.items() if b.order != 8} for n, ms in mol._bonds.items()}
+    return MCB.theta_long_bridges(adj) or MCB.dense_cage(adj) or MCB.theta_subgraph_long_bridges(adj)
+
+
 def safe_view(mol, name):
     try:
         return view(mol, name)
@@ -312,6 +317,11 @@ def coherent(ctx, mol, hist, last_op):
                 ctx.violation('derived-view-raises/%s/%s/after-%s' % (name, type(e).__name__, last_op),
                               '%r after %s' % (e, hist[-5:]), {'history': hist})
                 return False
+        if a != b and name in ('sssr', 'aromatic_rings', 'bond_marks', 'atom_labels') and _ring_gap(mol):
+            ctx.exclude('ring-perception-gap (C06)', {'history': hist[-4:]})
+            continue
+        if a != b and name == 'aromatic_rings' and sorted(map(sorted, mol.sssr)) != sorted(map(sorted, ref.sssr)):
+            continue       # smallest ring sets are not unique: aromatic_rings lists members of the chosen set
         if a != b:
             ctx.violation('stale-derived-view/%s/after-%s' % (name, last_op),
                           '%s: molecule says %s, rebuild says %s; history %s' % (name, _short(a), _short(b), hist[-6:]),
@@ -558,8 +568,10 @@ def run_history(ctx, seed_smiles, ops, readers, ks):
             try:
                 read(mol, rd)
             except Exception as e:
-                if any(a.implicit_hydrogens is None for _, a in mol.atoms()) and isinstance(e, TypeError):
-                    ctx.count('readers.raise-on-valence-invalid')   # sums over atoms are undefined there; the rebuild raises too
+                if any(a.implicit_hydrogens is None for _, a in mol.atoms()) and (isinstance(e, TypeError) or (type(e) is KeyError and not e.args)):
+                    ctx.count('readers.raise-on-valence-invalid')   # sums over atoms / stereo tables are undefined there; the rebuild raises too
+                    if type(e) is KeyError:
+                        return
                 else:
                     ctx.violation('reader-raises/%s/%s' % (rd, type(e).__name__), '%r; history %s' % (e, hist[-5:]), {'history': list(hist)})
                     return
@@ -570,6 +582,9 @@ def run_history(ctx, seed_smiles, ops, readers, ks):
         except EndHistory:
             return
         except Exception as e:
+            if isinstance(e, KeyError) and type(e) is KeyError and not e.args and any(a.implicit_hydrogens is None for _, a in mol.atoms()):
+                ctx.count('histories.ended-stereo-tables-undefined-on-valence-invalid')
+                return
             ctx.violation('mutator-raises/%s/%s' % (op, type(e).__name__), '%r; history %s' % (e, hist[-5:]),
                           {'history': list(hist) + [(op, k)]})
             return
